@@ -43,8 +43,8 @@ var isValidIngressAtoms = matchers{
 
 func init() {
 	register(&core.Property{
-		ID:    "C08",
-		Title: "Only Ingresses classified for this controller are ever configured",
+		ID:          "C08",
+		Title:       "Only Ingresses classified for this controller are ever configured",
 		Explanation: "Static decision of the class-selection mechanism: (1) the complete truth table of IsValidIngress, in the new and the legacy controller, extracted from SSA by a forward dataflow over the Boolean algebra of its conditions, equals the documented class rules on all rows; (2) the cache getters hand an Ingress to the converters only on the valid edge; (3) the Ingress watcher reclassifies updates as add/update/delete by the validity of the old and new object and its predicates pass an event iff the documented validity holds; (4) every kind read by the validity decision (IngressClass) forces a full sync, because an Ingress that is not valid has no tracking link to be found by a partial sync; (5) the converter obtains Ingress objects only from the filtered getters and the watcher lists.",
 		NotDecided: []string{
 			"histories on a live API server (informer re-lists, resync periods)",
@@ -146,8 +146,18 @@ func c08Filter(c *core.Ctx) {
 					continue
 				}
 				n++
-				c.Check(guardedBy(st, has("IsValidIngress("), true), key, at(c, st),
-					"element stored only on the valid edge of IsValidIngress", "an element is stored into the result without the IsValidIngress test")
+				// the guard must be the verdict computed for this very element, not a value merged from elsewhere
+				okG := false
+				for _, g := range guardsOf(st) {
+					if call, isCall := g.Cond.(*ssa.Call); isCall && g.Branch && strings.HasSuffix(core.CalleeName(&call.Call), ").IsValidIngress") {
+						a := call.Call.Args[len(call.Call.Args)-1]
+						if a == st.Val || core.Key(a) == core.Key(st.Val) {
+							okG = true
+						}
+					}
+				}
+				c.Check(okG, key, at(c, st),
+					"element stored only on the valid edge of IsValidIngress called on that element", "an element is stored into the result without (or with a cached / merged) IsValidIngress verdict for that very Ingress: its own annotation is not consulted")
 			}
 			// appends
 			for _, in := range blk.Instrs {
